@@ -45,6 +45,7 @@ func (c02) ExhaustiveNote(tier string) (bool, string) {
 }
 
 func (p c02) Run(c *core.Ctx) {
+	transientFaults := false
 	var sc *world.Scenario
 	part := "random"
 	ec := p.enumCount(c.Tier)
@@ -81,6 +82,21 @@ func (p c02) Run(c *core.Ctx) {
 		if c.Index%3 == 0 {
 			addSelfCandidatePoints(c, sc)
 		}
+		if c.Index%4 == 1 && len(sc.Nodes) <= 40 {
+			// a transient failure somewhere (a component's Init fails on its first invocation only), hit first
+			// from inside a service-locator lookup that swallows the error: the refresh creates the cycle
+			// members again afterwards and everything must be wired completely - or the start must fail
+			for x := 0; x < 1+c.Rng.Intn(2); x++ {
+				i := c.Rng.Intn(len(sc.Nodes))
+				if ti := world.Palette[sc.Nodes[i].Type]; ti.Init {
+					sc.Nodes[i].FailOnce = append(sc.Nodes[i].FailOnce, "init")
+				} else if ti.Aps {
+					sc.Nodes[i].FailOnce = append(sc.Nodes[i].FailOnce, "aps")
+				}
+			}
+			AddInitLookups(c.Rng, sc, 0.5)
+			transientFaults = true
+		}
 	default:
 		part = "self"
 		sc = selfOnlyScenario(c)
@@ -88,7 +104,39 @@ func (p c02) Run(c *core.Ctx) {
 	r := world.Start(sc, world.Options{})
 	c.Count("starts", 1)
 	c.Count("registry_steps", r.Tracer.Steps())
-	problems, exp := evalAgainstModel(r, true)
+	problems, exp := evalAgainstModel(r, !transientFaults)
+	if transientFaults {
+		c.Count("starts_with_swallowed_transient_failures", 1)
+		if r.Outcome() == "ok" && len(problems) == 0 {
+			// whatever the container hands out without an error must be completely wired
+			for _, pr := range exp.Points {
+				if pr.Node < 0 || pr.Res.Unsupported || !pr.Res.Required || len(pr.Res.S) == 0 {
+					continue
+				}
+				name := sc.Nodes[pr.Node].DisplayName()
+				var err error
+				r.Guard(func() { _, err = r.App.GetComponentByName(name) })
+				if r.Panic != nil || r.Diverge != nil {
+					problems = append(problems, problem{Kind: "panic", Msg: "lookup after the start: " + r.OutcomeDetail()})
+					break
+				}
+				if err != nil {
+					continue
+				}
+				refs, _ := r.ValueRefs(pr.Val)
+				empty := len(refs) == 0
+				for _, ref := range refs {
+					if ref.Nil {
+						empty = true
+					}
+				}
+				if empty {
+					problems = append(problems, problem{Kind: "handed-out-incomplete", Msg: fmt.Sprintf("component %q is handed out by GetComponentByName without error, but its required point %s [%s:%q] is empty", name, pr.Slot, pr.Pt.Tag, pr.Pt.Raw)})
+					break
+				}
+			}
+		}
+	}
 	shape := shapeOf(sc)
 	selfPts := 0
 	for _, pr := range exp.Points {
